@@ -276,6 +276,30 @@ class Reifier:
         return {"params": params, "objects": self.objects, "ghost": ghost, "notes": self.notes}
 
 
+def otp_tables(reifier):
+    """Model values of the object_typed_params summary for every reified (object, Params) pair (epoch 0)."""
+    from contracts.schema import otp_has, otp_val
+    out = {}
+    keys = set(reifier.eng.accessed_param_keys)
+    for kt in getattr(reifier.eng, "accessed_key_terms", []):
+        kv = reifier.ev(kt)
+        if z3.is_string_value(kv):
+            keys.add(kv.as_string())
+    objs = [(n, o) for n, o in list(reifier.objects.items()) if "TestObject" in reifier.class_chain(o["cls"])]
+    pars = [(n, o) for n, o in list(reifier.objects.items()) if o["cls"] == "Params"]
+    for on, _ in objs:
+        for pn, _ in pars:
+            data = {}
+            h = otp_has(reifier.ref_terms[on], reifier.ref_terms[pn], z3.IntVal(0))
+            v = otp_val(reifier.ref_terms[on], reifier.ref_terms[pn], z3.IntVal(0))
+            for k in sorted(keys):
+                if z3.is_true(reifier.ev(z3.Select(h, z3.StringVal(k)))):
+                    sv = reifier.ev(z3.Select(v, z3.StringVal(k)))
+                    data[k] = sv.as_string() if z3.is_string_value(sv) else ""
+            out.setdefault(on, {})[pn] = data
+    return out
+
+
 def function_tables(reifier, fns):
     """Values of uninterpreted summary functions over the reified objects (for native stubs).
 
